@@ -296,3 +296,21 @@ def outcome(thunk):
         return ("raised", "TypeError")
     except AttributeError as e:
         return ("raised", "AttributeError")  # e.g. map_keys() of a non-mapping node: undefined for both alike
+
+
+def is_json_pure(x):
+    """Structural purity: str keys; str/int/float/bool/None/list/dict only (evaluated on the
+    symbolic structure; real json.dumps runs on concrete witnesses only)."""
+    if x is None or isinstance(x, (bool, int, float, str)):
+        return True
+    if type(x) is list:
+        return all(is_json_pure(i) for i in x)
+    if type(x) is dict:
+        return all(type(k) is str and is_json_pure(v) for k, v in x.items())
+    return False
+
+
+def json_text_roundtrip(js):
+    import json
+
+    return json.loads(json.dumps(js))
